@@ -10,6 +10,7 @@ import (
 	"sync/atomic"
 	"time"
 
+	"github.com/bradenaw/juniper/iterator"
 	"github.com/bradenaw/juniper/parallel"
 	"github.com/bradenaw/juniper/stream"
 
@@ -56,6 +57,11 @@ type concSpec struct {
 	// BlockAtEnd; a Pipe whose sender stays idle): the stream never ends, so every scenario has a
 	// callback fault that fires, and E must reach a consumer whose context is live.
 	blocks bool
+	// chanLast: the last input is stream.FromIterator(iterator.Chan(ch)) - it ignores the context
+	// while it waits - and the harness keeps ch open and empty after that input's items: the input
+	// is blocked in Next for the whole scenario. Another input (or the callback) fails with E, and E
+	// must reach the consumer while that input is still blocked; only then is ch closed.
+	chanLast bool
 }
 
 func cbMap(e *env, stage int) func(context.Context, int) (int, error) {
@@ -208,6 +214,72 @@ func concBlockSubjects() []*concSpec {
 	}
 }
 
+// concChanSubjects: Merge with one input that ignores the context while it is blocked in Next.
+func concChanSubjects() []*concSpec {
+	return []*concSpec{
+		{name: "Merge(a,chan[blocked])", nparts: 2, mode: modeInterleave, unmap: identity, chanLast: true,
+			wire: func(e *env, s []stream.Stream[int], p concParams) (stream.Stream[int], stream.Stream[[]int]) {
+				return stream.Merge(s...), nil
+			}},
+		{name: "Merge(a,b,chan[blocked])", nparts: 3, mode: modeInterleave, unmap: identity, chanLast: true,
+			wire: func(e *env, s []stream.Stream[int], p concParams) (stream.Stream[int], stream.Stream[[]int]) {
+				return stream.Merge(s...), nil
+			}},
+	}
+}
+
+// observeMapStreamOverBlockedMerge records - and does NOT judge - what parallel.MapStream does when
+// its source is such a Merge: MapStream's reader goroutine closes the source before the error group
+// can finish, Merge's Close waits for all of its input goroutines, and the context-ignoring input
+// cannot be interrupted; so MapStream.Next (which waits for the group) reports the Merge's error
+// only once that input returns. Whether that is "silence" in the sense of the statement depends on
+// whether a source whose Close blocks is within it; it is written down for the reader, with the
+// elapsed time used only to tell the two behaviours apart (no verdict).
+func observeMapStreamOverBlockedMerge(r *vkit.Report) {
+	const table = "not judged: MapStream over a Merge one of whose inputs is blocked in a context-ignoring Next"
+	for par := 1; par <= 2; par++ {
+		ch := make(chan int)
+		probe := vkit.NewProbeStream("a", []int{11})
+		probe.HonourCtx = true
+		probe.FatalAt, probe.Fatal = 1, errSrcFatal
+		s := parallel.MapStream(context.Background(),
+			stream.Merge[int](probe, stream.FromIterator(iterator.Chan((<-chan int)(ch)))), par, 0,
+			func(ctx context.Context, x int) (int, error) { return x, nil })
+		type res struct{ err error }
+		done := make(chan res, 1)
+		go func() {
+			for {
+				_, err := s.Next(context.Background())
+				if err != nil {
+					done <- res{err}
+					return
+				}
+			}
+		}()
+		var got res
+		early := false
+		select {
+		case got = <-done:
+			early = true
+		case <-time.After(300 * time.Millisecond):
+			close(ch)
+			got = <-done
+		}
+		if early {
+			close(ch)
+		}
+		s.Close()
+		switch {
+		case early && errors.Is(got.err, errSrcFatal):
+			r.Count(table, "E was reported while the input was still blocked", 1)
+		case errors.Is(got.err, errSrcFatal):
+			r.Count(table, "E was reported only after the blocked input was released (>= 300 ms later)", 1)
+		default:
+			r.Count(table, "something other than E was reported: "+errString(got.err), 1)
+		}
+	}
+}
+
 // pipeFeed is the sending side of a Pipe: the "source" of the Pipe subjects.
 type pipeFeed struct {
 	e       *env
@@ -275,6 +347,16 @@ type concRun struct {
 	redVals  []int
 	redErr   error
 	phase    atomic.Int32 // 1 consuming, 2 closing, 3 done
+
+	blockedCh   chan int // chanLast subjects: the channel behind the blocked input
+	releaseOnce sync.Once
+}
+
+// release unblocks the context-ignoring input (after the verdict) so that everything can be torn down.
+func (cr *concRun) release() {
+	if cr.blockedCh != nil {
+		cr.releaseOnce.Do(func() { close(cr.blockedCh) })
+	}
 }
 
 // pauser parks the other workers while one worker asks vkit.Await whether its scenario is stuck
@@ -345,6 +427,14 @@ func (cr *concRun) exec(rnd *vkit.Rand) (verdict vkit.AwaitVerdict, dump string)
 			setFatal: func(p int, E error) { feed.fatalAt, feed.fatalE = p, E }, setTransient: func(int) {}})
 	} else {
 		for j := range cr.parts {
+			if spec.chanLast && j == len(cr.parts)-1 {
+				cr.blockedCh = make(chan int, len(cr.parts[j])+1)
+				for _, x := range cr.parts[j] {
+					cr.blockedCh <- x
+				}
+				srcs = append(srcs, stream.FromIterator(iterator.Chan((<-chan int)(cr.blockedCh))))
+				continue
+			}
 			w := newSrc(e, fmt.Sprintf("src%d", j), copyInts(cr.parts[j]), true, nil)
 			w.p.BlockAtEnd = spec.blocks
 			srcs = append(srcs, w)
@@ -416,6 +506,7 @@ func (cr *concRun) consume(e *env, srcs []stream.Stream[int], feed *pipeFeed, pl
 			cancel()
 		}
 		cr.phase.Store(2)
+		cr.release()
 		if feed != nil {
 			close(feed.release)
 			<-feed.done
@@ -462,6 +553,7 @@ loop:
 		break loop
 	}
 	cr.phase.Store(2)
+	cr.release() // the verdict is in: E (or End) was received while the blocked input was still blocked
 	stp.close()
 	if feed != nil {
 		close(feed.release)
@@ -924,6 +1016,48 @@ func concurrent(r *vkit.Report) {
 			}
 		}
 	}
+	// Merge with an input that is blocked in a context-ignoring Next: every configuration has a
+	// fatal fault (in a probe input, or in the callback) that fires.
+	for _, spec := range concChanSubjects() {
+		subs = append(subs, spec)
+		si := len(subs) - 1
+		for n := 1; n <= maxLen; n++ {
+			rnd := r.Rand("conc-chan-cfg", si, n)
+			in := makeInput(n, drawClasses(rnd, n, 2), true)
+			parts := concParts(in, spec.nparts, rnd)
+			var fatals []fault
+			add := func(f fault, half bool) {
+				cfgs = append(cfgs, prepared{cfg: concCfg{si, n, []fault{f}}, parts: parts, half: half})
+			}
+			for j := 0; j < spec.nparts-1; j++ {
+				for p := 0; p <= len(parts[j]); p++ {
+					fatals = append(fatals, mkFatal(fkFatalSrc, j, p, 0))
+					add(fatals[len(fatals)-1], false)
+				}
+				for ek := 1; ek < nFatalErrKinds; ek++ {
+					for _, p := range fewPositions(len(parts[j]), true) {
+						add(mkFatal(fkFatalSrc, j, p, ek), true)
+					}
+				}
+			}
+			for _, k := range spec.cbStages {
+				for p := 0; p < n; p++ {
+					fatals = append(fatals, mkFatal(fkFatalCb, k, p, 0))
+					add(fatals[len(fatals)-1], false)
+				}
+				for ek := 1; ek < nFatalErrKinds; ek++ {
+					for _, p := range fewPositions(n, false) {
+						add(mkFatal(fkFatalCb, k, p, ek), true)
+					}
+				}
+			}
+			for t := 0; t < 6; t++ {
+				f := fatals[rnd.Intn(len(fatals))]
+				g := mkFault([]faultKind{fkCtxDead, fkCtxExpiring}[rnd.Intn(2)], 0, rnd.Intn(n+1))
+				cfgs = append(cfgs, prepared{cfg: concCfg{si, n, []fault{f, g}}, parts: parts})
+			}
+		}
+	}
 	// Merge of zero inputs (regression for the fixed "never ends").
 	mergeZero := &concSpec{name: "Merge(0)", nparts: 0, mode: modeInterleave, unmap: identity,
 		wire: func(e *env, s []stream.Stream[int], p concParams) (stream.Stream[int], stream.Stream[[]int]) {
@@ -969,6 +1103,7 @@ func concurrent(r *vkit.Report) {
 			}
 			switch verdict {
 			case vkit.AwaitStuck:
+				cr.release()
 				if cr.phase.Load() == 1 {
 					stuckSeen.Add(1)
 					w := witness()
@@ -1025,6 +1160,9 @@ func concurrent(r *vkit.Report) {
 					}
 				}
 			}
+			if o.terminal == "fatal" && spec.chanLast {
+				r.Count("timing", "E received while another input was blocked in a context-ignoring Next", 1)
+			}
 			if o.terminal == "fatal" {
 				last := cr.attempts[len(cr.attempts)-1]
 				if cr.e.fireTick.Load() < last.start {
@@ -1070,6 +1208,9 @@ func concurrent(r *vkit.Report) {
 			}
 		}
 	})
+	if !r.Replaying() {
+		observeMapStreamOverBlockedMerge(r)
+	}
 	r.SetExhaustive(false)
 	sigMu.Lock()
 	nsig := len(sigs)
